@@ -36,6 +36,9 @@ type wsCase struct {
 	Size   int    `json:"size"` // bytes of the WebSocket message
 	Dir    string `json:"dir"`  // c2s | s2c
 	Binary bool   `json:"binary"`
+	// Upgraded: the session starts on long-polling and is upgraded to WebSocket before the message is sent
+	// (the server transport is then set up by the upgrade path, not by the handshake)
+	Upgraded bool `json:"upgraded,omitempty"`
 }
 
 func (c wsCase) String() string {
@@ -47,7 +50,11 @@ func (c wsCase) String() string {
 	if c.Dir == "s2c" {
 		dir = "server->client"
 	}
-	return fmt.Sprintf("MaxBufferSize=%s, %s %s message of %d bytes over a real WebSocket", c.Limit, dir, kind, c.Size)
+	how := "a real WebSocket"
+	if c.Upgraded {
+		how = "a real WebSocket reached by upgrading a long-polling session"
+	}
+	return fmt.Sprintf("MaxBufferSize=%s, %s %s message of %d bytes over %s", c.Limit, dir, kind, c.Size, how)
 }
 
 type wsEvent struct {
@@ -76,7 +83,11 @@ func runWSCase(c *ctx, wc wsCase, limIdx int, st *partStats) {
 	if wc.Binary {
 		binIdx = 1
 	}
-	rank := []int{3, limIdx, wc.Size, dirIdx, binIdx}
+	upIdx := 0
+	if wc.Upgraded {
+		upIdx = 1
+	}
+	rank := []int{3, limIdx, wc.Size, dirIdx, binIdx, upIdx}
 	report := func(key, what string) {
 		st.Outcomes["violation"]++
 		c.col.add(key, rank, func() (string, any) { return wc.String() + ": " + what, wc })
@@ -147,10 +158,28 @@ func runWSCase(c *ctx, wc wsCase, limIdx int, st *partStats) {
 	defer deadline.Stop()
 
 	var err error
-	cli, err = eio.Dial(ts.URL, callbacks("client", ""), &eio.ClientConfig{Transports: []string{"websocket"}})
+	ccfg := &eio.ClientConfig{Transports: []string{"websocket"}}
+	upgraded := make(chan string, 4)
+	if wc.Upgraded {
+		ccfg = &eio.ClientConfig{Transports: []string{"polling", "websocket"}, UpgradeDone: func(name string) {
+			select {
+			case upgraded <- name:
+			default:
+			}
+		}}
+	}
+	cli, err = eio.Dial(ts.URL, callbacks("client", ""), ccfg)
 	if err != nil {
 		c.harnessErr("ws rig: dial: " + err.Error())
 		return
+	}
+	if wc.Upgraded {
+		select {
+		case <-upgraded:
+		case <-deadline.C:
+			c.capHit("ws rig: the upgrade to websocket did not complete within 60 s")
+			return
+		}
 	}
 	if cli.TransportName() != "websocket" {
 		c.harnessErr("ws rig: transport is " + cli.TransportName())
@@ -338,8 +367,10 @@ func wsCases(c *ctx) (cases []wsCase, limIdx []int) {
 		for _, size := range sizesFor(limit, c.thorough, 3) {
 			for _, dir := range []string{"c2s", "s2c"} {
 				for _, bin := range kinds {
-					cases = append(cases, wsCase{Part: "ws", Limit: spec.Name, Size: size, Dir: dir, Binary: bin})
-					limIdx = append(limIdx, li)
+					for _, up := range []bool{false, true} {
+						cases = append(cases, wsCase{Part: "ws", Limit: spec.Name, Size: size, Dir: dir, Binary: bin, Upgraded: up})
+						limIdx = append(limIdx, li)
+					}
 				}
 			}
 		}
